@@ -47,7 +47,7 @@ def _(sheet_name: str, data: Any, strip_whitespace: bool = False, add_row_number
 
 @contract("process_range_question_type")
 def _(row: Any, parameters: Any) -> Any:
-    properties("C05")
+    properties("C05", "C04")
     trusted("dict rows: bounded native search only")
     exhaustive_only()
     requires(XH_range_unknown_parameter(parameters) or XH_range_not_a_number(parameters) or XH_range_all_plain_numbers(parameters))
